@@ -20,6 +20,7 @@ from ..engine import LVec
 from ..verdict import Result
 
 LEVEL = "exploration"
+AWKWARD_REGISTRATION_MIX = True
 REPS = {"quick": 1, "thorough": 12}
 RULE = ("synonym table (24 getter synonyms, 12 transverse synonyms, 20 conversion twins, 10 setter synonyms, 10 field "
         "synonyms) x {object, NumPy, Awkward zip/Array/with_name, SymPy} x 20 coordinate systems, exhaustively; operand "
